@@ -51,7 +51,7 @@ func (sc *scope) typeOf(e *expr) (ty, bool) {
 		if e.I < len(sc.funcs) && len(sc.funcs[e.I].Rets) == 1 {
 			return tS(sc.funcs[e.I].Rets[0]), true
 		}
-	case "conv":
+	case "conv", "assert":
 		return *e.T, true
 	case "index":
 		if t, ok := sc.typeOf(e.A); ok {
@@ -253,6 +253,8 @@ func (c *ctx) walkBlock(fi int, sp []int, blk []*stmt, sc *scope) {
 				t = tB("int") // generator never defines from a constant
 			}
 			sc.vars = append(sc.vars, t)
+		case "defineok":
+			sc.vars = append(sc.vars, *s.T, tB("bool"))
 		}
 	}
 	sc.vars = sc.vars[:saved]
@@ -336,6 +338,17 @@ func (c *ctx) walkStmt(fi int, sp []int, s *stmt, sc *scope) {
 				}
 			}
 		}
+	case "defineok":
+		c.assertMutants(sc, *s.T, s.E, func(op, class string, nt *ty, ne *expr) {
+			c.emit("commaok-"+op, class, c.withStmt(fi, sp, func(m *stmt) {
+				if nt != nil {
+					m.T = nt
+				}
+				if ne != nil {
+					m.E = ne
+				}
+			}))
+		})
 	case "define":
 		c.emit("define-nil", "nil", c.withStmt(fi, sp, func(m *stmt) { m.E = &expr{K: "nil"} }))
 		for gi, g := range sc.funcs {
@@ -745,6 +758,18 @@ func (c *ctx) walkExpr(fi int, sp, ep []int, e *expr, sc *scope) {
 			r.A = l.clone()
 			repl("conversion-operand-literal", e.T.class()+"<-"+litClass(l), r)
 		}
+	case "assert":
+		c.walkExpr(fi, sp, cp(ep, 0), e.A, sc)
+		c.assertMutants(sc, *e.T, e.A, func(op, class string, nt *ty, ne *expr) {
+			r := e.clone()
+			if nt != nil {
+				r.T = nt
+			}
+			if ne != nil {
+				r.A = ne
+			}
+			repl(op, class, r)
+		})
 	case "index":
 		c.walkExpr(fi, sp, cp(ep, 0), e.A, sc)
 		c.walkExpr(fi, sp, cp(ep, 1), e.B, sc)
@@ -794,6 +819,66 @@ func (c *ctx) walkExpr(fi int, sp, ep []int, e *expr, sc *scope) {
 				repl("index-constant-out-of-range", "array", r)
 			}
 		}
+	}
+}
+
+// missingClass: which methods of the interface it the type t lacks ("" when it implements it)
+func missingClass(t, it ty) string {
+	have := map[int]bool{}
+	for _, m := range methodsOf(t) {
+		have[m] = true
+	}
+	exp, unexp := false, false
+	for _, m := range methodsOf(it) {
+		if !have[m] {
+			if m < 8 {
+				exp = true
+			} else {
+				unexp = true
+			}
+		}
+	}
+	switch {
+	case exp && unexp:
+		return "missing-exported-and-unexported"
+	case exp:
+		return "missing-exported"
+	case unexp:
+		return "missing-unexported"
+	}
+	return "implements"
+}
+
+// assertMutants: mutations of a type assertion x.(T): another asserted type (one per class and per kind
+// of missing method), an operand that is not of interface type, a literal operand
+func (c *ctx) assertMutants(sc *scope, t ty, x *expr, emit func(op, class string, nt *ty, ne *expr)) {
+	xt, ok := sc.typeOf(x)
+	if ok && xt.K == "iface" {
+		seen := map[string]bool{}
+		for _, nt := range universe() {
+			if tyEq(nt, t) {
+				continue
+			}
+			k := nt.class() + ":" + missingClass(nt, xt)
+			if nt.K == "iface" {
+				k = nt.class() + ":interface-target"
+			}
+			if seen[k] {
+				continue
+			}
+			seen[k] = true
+			nt := nt
+			emit("assertion-target-type", xt.class()+"->"+k, &nt, nil)
+		}
+	}
+	for _, vi := range sc.onePerClass(sc.varsWhere(func(v ty) bool { return v.K != "iface" })) {
+		emit("assertion-operand-not-interface", sc.vars[vi].class(), nil, &expr{K: "var", I: vi})
+	}
+	for _, vi := range sc.onePerClass(sc.varsWhere(func(v ty) bool { return v.K == "iface" && !(t.K == "iface" || implements(t, v)) })) {
+		emit("assertion-operand-interface", sc.vars[vi].class()+"->"+t.class()+":"+missingClass(t, sc.vars[vi]), nil, &expr{K: "var", I: vi})
+	}
+	for _, l := range badLits {
+		emit("assertion-operand-literal", litClass(l), nil, l.clone())
 	}
 }
 
